@@ -6,6 +6,7 @@ import array as _array
 import base64 as _base64
 import binascii as _binascii
 import builtins
+import collections as _collections
 import importlib.abc
 import importlib.machinery
 import importlib.util
@@ -541,7 +542,7 @@ def sx_call(f, *args, **kw):
                 if name == "get":
                     return None
                 raise KeyError("<symbolic>")
-        if isinstance(slf, (list,)) and name in ("append", "extend", "insert", "__iadd__"):
+        if isinstance(slf, (list, _collections.deque)) and name in ("append", "appendleft", "extend", "extendleft", "insert", "__iadd__"):
             return f(*args, **kw)
         if isinstance(slf, list) and name in ("remove", "index", "count") and isinstance(args[0], SymInt):
             for i, v in enumerate(slf):
